@@ -153,6 +153,19 @@ func genC11(r *rng, tier string, emit func(string)) {
 			}
 		}
 	}
+	// plaintexts whose own tail equals the pad value 16 - len%16 that will follow it (1..3 such bytes)
+	for l := 1; l <= 50; l++ {
+		if l%16 == 0 {
+			continue
+		}
+		for k := 1; k <= 3 && k <= l; k++ {
+			p := r.bytes(l)
+			for i := 0; i < k; i++ {
+				p[l-1-i] = byte(16 - l%16)
+			}
+			emit(fmt.Sprintf("sm4mode %s 1 %s %s %s 0", modes[(l+k)%4], hx(r.block16()), hx(r.block16()), hx(p)))
+		}
+	}
 	// round trips through the real code: decrypt what the real code encrypted
 	n := 400
 	if tier == "thorough" {
@@ -162,6 +175,13 @@ func genC11(r *rng, tier string, emit func(string)) {
 		m := modes[r.intn(4)]
 		key, iv := r.block16(), r.block16()
 		p := r.bytes(r.intn(100))
+		if l := len(p); i%3 == 0 && l%16 != 0 { // the plaintext's own tail equals the pad value that follows it
+			for j := 0; j < 1+i%3 && j < l; j++ {
+				p[l-1-j] = byte(16 - l%16)
+			}
+		} else if l > 0 && i%3 == 1 { // or some other small value
+			p[l-1] = byte(1 + r.intn(16))
+		}
 		sm4.SetIV(iv)
 		var c []byte
 		switch m {
